@@ -9,7 +9,9 @@ Streams (model = coq/Run/ThashRun.v over coq/Thash/*.v + Gen/Precomputed.v, Gen/
                (node_to_bytes, node_to_bytes_backrefs) from the same DAGs, produced by a Python
                generator that places back-references into values and into the parse stack itself, and
                malformed / truncated / mutated inputs (error verdicts must agree too)
+  thash.fbo    the same inputs through clvmr's older stack-as-cons-list deserializer + tree_hash_cached
   thash.curry  curry_tree_hash on hash lists
+  thash.curried the tree CurriedProgram::to_clvm builds (with clvm_curried_args!) against the model's curried_program
   thash.ff     fast_forward.rs curry_and_treehash, observed through fast_forward_singleton
 Oracles (the property itself, independent of the Coq model):
   * Python (hashlib) recursive tree hash over the script / over an independent Python deserializer,
@@ -313,10 +315,10 @@ SHAPES = ["atoms", "deep_r", "deep_l", "balanced", "doubling", "spends", "random
 def gen_script(rng, tier, shape=None, hlimit=1500):
     s = Script()
     shape = shape or rng.choice(SHAPES)
-    big = 40 if tier == "quick" else 200
+    big = 40 if tier == "quick" else 100
     budget = 3 + rng.below(big)
     if shape in ("deep_r", "deep_l") and rng.chance(1, 5):
-        budget = 150 + rng.below(250) if tier == "quick" else 500 + rng.below(2500)
+        budget = 100 + rng.below(200) if tier == "quick" else 400 + rng.below(1200)
     if shape == "doubling":
         budget = 2 + rng.below(58)
     roots = build_shape(s, rng, shape, budget)
@@ -382,6 +384,8 @@ def expect_seq(line):
 
 
 def check_seq_oracle(rep, stream, line, out):
+    if out == "UNCHECKED-TIMEOUT":
+        return
     exp = expect_seq(line)
     got = [] if out == "-" else out.split(" ")
     bad = None
@@ -400,6 +404,32 @@ def check_seq_oracle(rep, stream, line, out):
     if bad:
         rep.add_failure(stream + "/oracle", line, out, " ".join(w or "?" for _, w in exp), bad + " (Python oracle)")
 
+
+
+def mask_policy(line, out):
+    """thash.seq output with the results of cache.get / should_memoize masked: WHAT is memoized is
+    the cache's policy, not part of the property (a returned hash is still checked by the oracle)"""
+    kinds = [t[0] for t in line.split(" ")[1:] if t[0] in "HCGM"]
+    toks = [] if out == "-" else out.split(" ")
+    if len(toks) != len(kinds):
+        return out
+    return " ".join("*" if k in "GM" else t for k, t in zip(kinds, toks))
+
+
+def diff_seq(rep, lines, impl, model, key):
+    """hashes returned by tree_hash / tree_hash_cached: a disagreement is a failing input.
+    cache.get / should_memoize observations: a disagreement means the TreeCache mirror (visit
+    counters, memoization policy) no longer describes the code, i.e. the theorems no longer speak
+    about it: reported as a broken tie (no failing input for the property itself)"""
+    diff_stream(rep, "thash.seq", lines, [mask_policy(l, o) for l, o in zip(lines, impl)],
+                [mask_policy(l, o) for l, o in zip(lines, model)], key)
+    pol = [(l, i, m) for l, i, m in zip(lines, impl, model) if i != m and mask_policy(l, i) == mask_policy(l, m)]
+    rep.streams["thash.seq"]["policy_disagreements"] = len(pol)
+    if pol:
+        pol.sort(key=lambda x: len(x[0]))
+        l, i, m = pol[0]
+        rep.add_broken("correspondence", "thash.seq (TreeCache get/should_memoize observations)",
+                       json.dumps({"cases": len(pol), "smallest_case": l, "impl": i, "model": m}))
 
 # ------------------------------------------------------------------ Python-made back-reference streams
 def path_bytes(p, rng):
@@ -498,9 +528,33 @@ def plain_ser_tree(rng, depth):
 
 
 # ------------------------------------------------------------------ the check
+def run_batched(binary, lines, batch, timeout):
+    """run in batches so that one shard process never has more than batch/16 cases; lines whose shard hit the
+    timeout are re-run once in small batches with a longer limit"""
+    out = []
+    for i in range(0, len(lines), batch):
+        out += C.run_lines(binary, lines[i:i + batch], timeout=timeout)
+    late = [i for i, o in enumerate(out) if o == "TIMEOUT"]
+    if late:
+        redo = C.run_lines(binary, [lines[i] for i in late], timeout=3 * timeout)
+        for i, o in zip(late, redo):
+            out[i] = o
+    return out
+
+
 def both(ctx, lines):
-    impl = C.run_lines(C.VH(UNIT), lines)
-    model = C.run_lines(C.VRUN(UNIT), lines) if ctx["have_model"] else None
+    thorough = ctx["tier"] == "thorough"
+    batch, timeout = (1600, 2400) if thorough else (4000, 900)
+    impl = run_batched(C.VH(UNIT), lines, batch, timeout)
+    model = run_batched(C.VRUN(UNIT), lines, batch, timeout) if ctx["have_model"] else None
+    # a case the machine could not finish in time is not a disagreement: it is reported as unchecked
+    if model is not None:
+        late = [i for i, (a, b) in enumerate(zip(impl, model)) if a == "TIMEOUT" or b == "TIMEOUT"]
+        if late:
+            ctx["rep"].add_broken("timeout", lines[late[0]].split(" ")[0],
+                                  "%d cases not finished within the time limit (machine overloaded?)" % len(late))
+            for i in late:
+                impl[i] = model[i] = "UNCHECKED-TIMEOUT"
     return impl, model
 
 
@@ -526,11 +580,13 @@ def run(ctx):
                 rep.add_failure(name, line, out, "OK", "implementation-level oracle: a routine disagrees with the independent tree hash")
             return
         impl, model = both(ctx, [line])
-        if model is not None:
+        if model is not None and name == "thash.seq":
+            diff_seq(rep, [line], impl, model, None)
+        elif model is not None:
             diff_stream(rep, name, [line], impl, model)
         if name == "thash.seq":
             check_seq_oracle(rep, name, line, impl[0])
-        elif name == "thash.fb":
+        elif name in ("thash.fb", "thash.fbo"):
             w = expect_fb(line)
             if impl[0] != w:
                 rep.add_failure(name + "/oracle", line, impl[0], w, "tree_hash_from_bytes differs from the Python reference")
@@ -553,9 +609,9 @@ def run(ctx):
         s.op("C", q)
         s.op("G", q)
         scripts.append((s, "small-atoms", {"H", "C", "G"}))
-    n_rand = 260 if not thorough else 6000
+    n_rand = 160 if not thorough else 1500
     for _ in range(n_rand):
-        s, shape, used, _ = gen_script(r1, tier, hlimit=1500 if not thorough else 20000)
+        s, shape, used, _ = gen_script(r1, tier, hlimit=600 if not thorough else 4000)
         scripts.append((s, shape, used))
     lines = [s.line() for s, _, _ in scripts]
     impl, model = both(ctx, lines)
@@ -565,7 +621,7 @@ def run(ctx):
         shape, used, mx = meta[c]
         return (shape, bucket(mx), "".join(sorted(used)), "hit" if any(len(x) == 64 for x in i.split(" ")[-3:]) else "")
     if model is not None:
-        diff_stream(rep, "thash.seq", lines, impl, model, key_seq)
+        diff_seq(rep, lines, impl, model, key_seq)
     else:
         rep.evaluations += len(lines)
     for l, o in zip(lines, impl):
@@ -605,11 +661,11 @@ def run(ctx):
             rep.add_broken("harness", "thash.ser", so)
             continue
         want = s.want[-1].hex()
-        plain_limit = 1500 if not thorough else 20000
+        plain_limit = 600 if not thorough else 4000
         if parts[0] != "-" and s.size[-1] <= plain_limit:
             fb.append(("thash.fb " + parts[0], "clvmr-plain", want))
         fb.append(("thash.fb " + parts[1], "clvmr-backrefs", want))
-    for _ in range(250 if not thorough else 6000):
+    for _ in range(250 if not thorough else 4000):
         bs = gen_br_stream(r2, 3 + r2.below(60), bad_paths=r2.chance(1, 3))
         fb.append(("thash.fb " + hexo(bs), "py-backrefs", None))
         if r2.chance(1, 3) and len(bs) > 1:
@@ -643,16 +699,26 @@ def run(ctx):
     for (l, kind, want), o in zip(fb, impl):
         w = want if want is not None else expect_fb(l)
         verdicts[(kind, "ERR" if o == "ERR" else "ok")] = verdicts.get((kind, "ERR" if o == "ERR" else "ok"), 0) + 1
-        if o != w:
+        if o != w and o != "UNCHECKED-TIMEOUT":
             rep.add_failure("thash.fb/oracle", l, o, w,
                             "tree_hash_from_bytes differs from the reference tree hash of the deserialized tree (Python oracle)")
     rep.streams.setdefault("thash.fb", {}).update({"verdicts": {"%s:%s" % k: v for k, v in sorted(verdicts.items())},
                                                    "oracle_checked": len(fb)})
+    # the older cons-list deserializer on every input that contains a back-reference marker
+    olds = ["thash.fbo" + l[len("thash.fb"):] for l, kind, _ in fb if kind != "clvmr-plain" and "fe" in l]
+    impl_o, model_o = both(ctx, olds)
+    if model_o is not None:
+        diff_stream(rep, "thash.fbo", olds, impl_o, model_o, lambda c, i: ("ERR" if i == "ERR" else "ok", bucket(len(c) // 2)))
+    new_by_line = {l: o for (l, _, _), o in zip(fb, impl)}
+    for l, o in zip(olds, impl_o):
+        if "UNCHECKED-TIMEOUT" not in (o, new_by_line["thash.fb" + l[len("thash.fbo"):]]) and o != new_by_line["thash.fb" + l[len("thash.fbo"):]]:
+            rep.add_failure("thash.fbo/oracle", l, o, new_by_line["thash.fb" + l[len("thash.fbo"):]],
+                            "the two back-reference deserializers of clvmr lead to different tree hashes")
 
     # ---------------- stream thash.curry (+ oracle on real curried programs)
     r3 = rng.fork("curry")
     clines = []
-    for n in list(range(0, 8)) + [r3.below(40) for _ in range(20 if not thorough else 300)]:
+    for n in list(range(0, 8)) + [r3.below(24) for _ in range(16 if not thorough else 300)]:
         hs = [r3.bytes(32) if r3.chance(3, 4) else h_atom(canon(r3.choice(SMALL_POOL))) for _ in range(n + 1)]
         clines.append("thash.curry " + " ".join(h.hex() for h in hs))
     impl, model = both(ctx, clines)
@@ -664,8 +730,15 @@ def run(ctx):
         for a in reversed(hs[1:]):
             acc = h_pair(h_atom(b"\x04"), h_pair(h_pair(h_atom(b"\x01"), a), h_pair(acc, h_atom(b""))))
         w = h_pair(h_atom(b"\x02"), h_pair(h_pair(h_atom(b"\x01"), hs[0]), h_pair(acc, h_atom(b"")))).hex()
-        if o != w:
+        if o != w and o != "UNCHECKED-TIMEOUT":
             rep.add_failure("thash.curry/oracle", l, o, w, "curry_tree_hash differs from the hash of the curried program structure (Python oracle)")
+    cd = []
+    for _ in range(40 if not thorough else 600):
+        n = r3.choice([0, 1, 2, 3, 3, 4, 6])
+        cd.append("thash.curried " + " ".join(plain_ser_tree(r3, r3.below(4)).hex() for _ in range(n + 1)))
+    impl, model = both(ctx, cd)
+    if model is not None:
+        diff_stream(rep, "thash.curried", cd, impl, model, lambda c, i: ("nargs", len(c.split(" ")) - 2, bucket(len(i))))
     oc = []
     for _ in range(60 if not thorough else 1200):
         s = Script()
